@@ -20,13 +20,23 @@ if [ "$mode" != "detect" ]; then
   go build ./... 2>/dev/null && b=true
   go test -vet=off -count=1 ./... >/tmp/seed-tests.$$ 2>&1 && t=true
   cp $dir/demo_test.go.txt $pkg/zz_seeded_demo_test.go
-  go test -tags verif -vet=off -count=1 -run 'Mut|Demo' ./$pkg/ >/tmp/seed-demo1.$$ 2>&1 || df=true
+  # the demonstration may need a forced acceleration level or the race detector: it "fails with the change"
+  # if it fails in any of these modes, and "passes without" only if it passes in all of them
+  rundemo() {
+    local ok=0
+    go test -tags verif -vet=off -count=1 -run 'Mut|Demo' ./$pkg/ >/tmp/seed-demo$1a.$$ 2>&1 || ok=1
+    FASTGO_VERIF_ARCHLEVEL=0 go test -tags verif -vet=off -count=1 -run 'Mut|Demo' ./$pkg/ >/tmp/seed-demo$1b.$$ 2>&1 || ok=1
+    FASTGO_VERIF_ARCHLEVEL=1 go test -tags verif -vet=off -count=1 -run 'Mut|Demo' ./$pkg/ >/tmp/seed-demo$1c.$$ 2>&1 || ok=1
+    if [ "$prop" = "C17" ]; then go test -race -tags verif -vet=off -count=1 -run 'Mut|Demo' ./$pkg/ >/tmp/seed-demo$1d.$$ 2>&1 || ok=1; fi
+    return $ok
+  }
+  rundemo 1 || df=true
   git apply -R $dir/patch.diff
-  go test -tags verif -vet=off -count=1 -run 'Mut|Demo' ./$pkg/ >/tmp/seed-demo2.$$ 2>&1 && dp=true
+  rundemo 2 && dp=true
   cd /; git -C /repo worktree remove --force $sw
   echo "$name verify: build=$b existing_tests_pass=$t demo_fails_with_change=$df demo_passes_without=$dp"
-  [ "$df" = false ] && tail -5 /tmp/seed-demo1.$$
-  [ "$dp" = false ] && tail -5 /tmp/seed-demo2.$$
+  [ "$df" = false ] && tail -3 /tmp/seed-demo1a.$$
+  [ "$dp" = false ] && tail -3 /tmp/seed-demo2*.$$
   res=$(python3 -c "import json;print(json.dumps({'build':'$b'=='true','existing_tests_pass':'$t'=='true','demo_fails_with_change':'$df'=='true','demo_passes_without':'$dp'=='true'}))")
   rm -f /tmp/seed-*.$$
 fi
